@@ -1,4 +1,5 @@
 import Glas.Lemmas.Text
+import Glas.Lemmas.TextPos
 import Glas.Model.TextSpec
 /-!
 # C14 — positions mean the same thing to the server and to an LSP client
@@ -9,13 +10,42 @@ Theorems about `Glas.Text.lineMap` (model of `LineMap::normalize`), `lineColForP
 namespace Glas.Props.C14
 open Glas.Text
 
-/-- column conversion inside one line: the UTF-16 column of a character boundary is mapped to its
-byte offset (the loop of `pos_for_line_col`) -/
-theorem col_to_byte (cs : List Char) (k : Nat) (hk : k ≤ cs.length) :
-    posForCol (diffsOf cs 0) (u16sum (cs.take k)) = u8sum (cs.take k) := by
-  have := posForCol_correct cs 0 k hk
-  simpa using this
+/-- the `(line, column)` the server reports for the byte offset of a character boundary is the
+one an LSP client computes for that character -/
+theorem lineCol_eq_client (t : List Char) (k : Nat) (hk : k ≤ t.length) :
+    (lineMap t).lineColForPos (u8sum (t.take k)) = some (clientLineCol t k) := by
+  have _ := hk
+  exact lineColForPos_client t k
 
+/-- offset → position → offset is the identity on character boundaries -/
+theorem roundtrip (t : List Char) (k : Nat) (hk : k ≤ t.length) (hlen : u8sum t < U32) :
+    (lineMap t).posForLineCol (clientLineCol t k).1 (clientLineCol t k).2
+      = some (u8sum (t.take k)) := by
+  have _ := hk
+  exact posForLineCol_client t k hlen
+
+/-- the conversion is strictly monotone -/
+theorem strict_mono (t : List Char) (j k : Nat) (hjk : j < k) (hk : k ≤ t.length) :
+    posLt (clientLineCol t j) (clientLineCol t k) := by
+  exact clientLineCol_strict_mono t j k hjk hk
+
+/-- the client resolves the reported position back to the same character -/
+theorem client_resolves (t : List Char) (k : Nat) (hk : k ≤ t.length) :
+    clientOffset t (clientLineCol t k) = some k := by
+  exact clientOffset_clientLineCol t k hk
+
+/-- every range the server sends selects in the client's document exactly the characters the
+server meant: both ends are reported as the client's positions of the same characters -/
+theorem toRange_selects (t : List Char) (j k : Nat) (hjk : j ≤ k) (hk : k ≤ t.length) :
+    (lineMap t).toRange (u8sum (t.take j)) (u8sum (t.take k))
+      = some (clientLineCol t j, clientLineCol t k) ∧
+    clientOffset t (clientLineCol t j) = some j ∧ clientOffset t (clientLineCol t k) = some k := by
+  have hj : j ≤ t.length := by omega
+  refine ⟨?_, clientOffset_clientLineCol t j hj, clientOffset_clientLineCol t k hk⟩
+  unfold LineMap.toRange
+  rw [lineCol_eq_client t j hj, lineCol_eq_client t k hk]
+
+/-- non-vacuity: a two-line text with 2-, 3- and 4-byte characters -/
 example : (lineMap "aß\nℝ💣b".toList).lineColForPos 11 = some (1, 3) := by decide
 
 end Glas.Props.C14
